@@ -224,7 +224,8 @@ CONFIG['C15'] = {
                 "established by enumeration on every run, not by theorem: it needs a bit-level IEEE model"],
     'level_text': "Machine-checked proof (Lean 4) on the ideal rational crop box for all positive sizes and all centerings: inside the source, "
                   "destination aspect ratio (exact, or whole source when within eps), spans one dimension, margin fraction equals the "
-                  "clamped centering; the Rust source text is pinned to a bit-exact Float mirror which is compared with the implementation "
+                  "clamped centering; for the rounded computation in the code's operation order (fitF, any monotone rounding with fl 0 = 0) the box spans "
+                  "one source dimension exactly, the origin is non-negative and at most the rounded margin, centering 0 gives origin 0; the Rust source text is pinned to a bit-exact Float mirror which is compared with the implementation "
                   "on ~150,000 quadruples per run, and the implementation's own results are judged against the property incl. acceptance "
                   "by the crate's crop validation.",
     'level_note': "Trusted: Lean kernel, harness/protocol, Lean Float = IEEE binary64. The f64 last-ulp in-bounds clause is by enumeration.",
@@ -276,7 +277,9 @@ CONFIG['C11'] = _resize_cfg(
     "cropped-view sources. Oracle: destination pixel (x, y) must be the source pixel at floor(left + (x+1/2)*cw/dw), floor(top + ...) "
     "computed in exact rational arithmetic from the f64 bit patterns; within 2^-40 of an integer either neighbour inside the source is accepted.",
     "Machine-checked proof (Lean 4) about the model of resample_nearest: every destination component is a bit-exact copy of a source "
-    "component whose column / row index is always inside the source, independent of pixel type and alpha setting; the equality of those "
+    "component whose column / row index is always inside the source, independent of pixel type and alpha setting; the stateful row loop "
+    "(forward-only iterator, cached row, next_row_y) is proved to hand out exactly the requested rows for every non-decreasing request "
+    "sequence, and the requests are non-decreasing for every monotone rounding (row_cursor_eq_direct, requested_rows_sorted); the equality of those "
     "indices with the exact rational coordinate is checked on every generated case (float-noise clause).",
     ["that the f64 index computation equals the exact floor is established per case by an exact rational oracle, not by theorem"],
     "Lean 4 theorems over the nearest model + differential correspondence with an exact rational oracle")
@@ -331,10 +334,14 @@ CONFIG['C10'] = _resize_cfg(
     "Machine-checked proof (Lean 4) about passInt, the arithmetic of one destination component: if the window's integer coefficients "
     "satisfy QuantOK the pass maps a constant row to exactly that constant (all 256 / 65,536 values, every window length and precision), "
     "two passes compose; QuantOK holds whenever m*|sum - 2^p| < 2^(p-1). QuantOK itself is discharged by evaluation on the "
-    "implementation's real coefficients for every enumerated geometry (enumeration, said so), and holds unconditionally up to 8,222 taps.",
+    "implementation's real coefficients for every enumerated geometry (enumeration, said so), and holds unconditionally up to 8,222 taps; "
+    "I32 / F32: a constant row through the f64 accumulation (any summation tree) deviates by at most the accumulated rounding plus the defect of "
+    "the weight sum from 1 (uniform_float, uniform_i32).",
     ["'all geometries' is by enumeration of QuantOK on real coefficients, not by theorem",
      "beyond ~8,222 taps QuantOK can fail: known finding F17 (13678:1 Box, value 255 -> 254), negation proved (quantOK_fails_at_13678_taps)",
-     "I32 / F32: by the correspondence oracle (exact / one ulp), no theorem about f64 accumulation"],
+     "I32 / F32: uniform_float bounds the deviation by the accumulated rounding gamma(depth)*|v|*sum|k| + |v|*|sum k - 1| for every summation "
+     "order under the standard rounding model (RelErr premise = IEEE, trusted); that this stays below 1/2 (I32) / one ulp (F32) for a concrete "
+     "geometry is checked by the oracle on the real weights"],
     "Lean 4 theorems over the fixed-point pass arithmetic (omega) + per-geometry discharge of QuantOK on real coefficients + uniform-image oracle")
 
 CONFIG['C18'] = _resize_cfg(
@@ -345,9 +352,12 @@ CONFIG['C18'] = _resize_cfg(
     "Machine-checked proof (Lean 4) about passInt: with non-negative integer coefficients the exact dot product, the shift and the clip "
     "are monotone, so the pass preserves order (8 and 16 bit), and with QuantOK at the two range ends the result stays inside the range "
     "of its inputs; madd_epi16 pair products cannot overflow. Non-negativity of the real coefficients and QuantOK are discharged on the "
-    "implementation's own numbers; float formats by the oracle with one ulp.",
+    "implementation's own numbers; for I32 / F32 the rounded f64 accumulation is monotone in every sample for every monotone rounding and "
+    "every summation order (portable loop and SIMD lanes), so order is preserved exactly and results lie between the results of the constant "
+    "rows lo and hi.",
     ["sign of the f64 Hamming / Gaussian kernel values is checked on the real coefficients, not proved (libm)",
-     "I32 / F32 order preservation: oracle only"],
+     "I32 / F32: order preservation and no-overshoot are theorems for every monotone rounding (float_pass_monotone, float_tree_monotone, "
+     "float_range); that IEEE round-to-nearest is monotone is a premise (trusted base)"],
     "Lean 4 theorems over the fixed-point pass arithmetic + ordered-pair / range oracle + sign check of real coefficients")
 
 CONFIG['C07'] = _resize_cfg(
@@ -373,11 +383,13 @@ CONFIG['C01'] = _resize_cfg(
     "Machine-checked proof (Lean 4) about passInt: the result is the exact fixed-point sum rounded to nearest (within half a unit) and "
     "clamped; against ideal rational weights the error of a pass is at most 1/2 + n*m/2^(p+1) when each integer coefficient is the ideal "
     "one rounded; clamping is 1-Lipschitz and a second pass adds sum|w| times the first error; SuperSampling is the convolution of the "
-    "nearest intermediate (control flow). The executable model (bit-exact Float mirror of the kernels and of precompute_coefficients) "
+    "nearest intermediate (control flow); for I32 / F32 the f64 accumulation of n taps is within ((1+u)^(n+1)-1)*sum|x k| of the exact sum "
+    "for every rounding with relative error u and every summation order, then half a unit (I32) or one binary32 rounding (F32). The executable model (bit-exact Float mirror of the kernels and of precompute_coefficients) "
     "reproduces the implementation on every generated case.",
     ["accuracy of the f64 evaluation of the kernels and of their normalisation (libm) is not a theorem: the implementation's weights are "
      "compared bit for bit with the model's mirror, which evaluates the documented formulas",
-     "I32 / F32 accumulation error bounds are not proved in Lean (exact agreement with the model on the portable back-end is checked)"],
+     "I32 / F32: pass_err_f64 / pass_err_i32 / pass_err_f32 bound the error under the standard model of rounding (relative error u per "
+     "operation - a premise about IEEE arithmetic, trusted); overflow / saturation of the final cast is excluded by hypothesis"],
     "Lean 4 theorems over the fixed-point pass arithmetic (integers + rationals) + bit-exact executable mirror with differential correspondence")
 
 CONFIG['C02'] = _resize_cfg(
@@ -386,15 +398,21 @@ CONFIG['C02'] = _resize_cfg(
     "of width*channels mod 32) x heights (every residue mod 4) x offsets 0..2 x weight styles (non-negative, negative lobes, strong "
     "alternation, tiny weights: precisions 13..21 all reached inside the head-room) x back-ends none / sse4 / avx2; (b) whole resizes on "
     "SSE4.1 and AVX2 against the portable back-end (all types, algorithms, crops, alpha on/off); (c) alpha multiply / divide images (C06's "
-    "generator, incl. cropped / nested views and the constant tables read through the hooks). Oracle: integer formats byte-identical to the portable back-end (16-bit alpha division one unit), f32 within a few ulps.",
+    "generator, incl. cropped / nested views and the constant tables read through the hooks). Oracle: integer formats byte-identical to the portable back-end (16-bit alpha division: each component must equal the portable result or the exact soft-float evaluation of the f32 lane), f32 within a few ulps.",
     "Machine-checked proof (Lean 4): any chunking / re-association of an integer dot product, with exact or wrapping accumulators, gives "
     "the same sum; the SIMD finishing sequence srai -> packs_epi32 -> packus_epi16 equals the translated clip table for every 32-bit "
     "accumulator and precision, and Normalizer32::clip equals the packus_epi32 clamp; madd_epi16 pair products are exact; the SIMD 8-bit "
     "alpha-division lane (f32 reciprocal, cvtps_epi32, slli 7, mulhrs_epi16, min_epu16 with 255) equals the portable recip-table division "
     "for all 65,536 (colour, alpha) pairs (exact soft-float, decide +kernel), and the intrinsic skeleton of the four kernels is pinned "
-    "to the source on every run. The lane plumbing is tied by correspondence over every remainder branch of every kernel.",
+    "to the source on every run; the SIMD 16-bit alpha-division lane (mul_ps by 65535, div_ps, min_ps, cvtps_epi32) is faithful and "
+    "saturating for all 2^32 pairs under the standard rounding model, hence within one unit of the portable division "
+    "(simd_div16_within_one; intrinsic multiset pinned to the source); two summation orders of the rounded f64 products differ by at "
+    "most the sum of their error bounds (reassoc_err). The lane plumbing is tied by correspondence over every remainder branch of every kernel.",
     ["shuffle masks, lane placement and load widths are not modelled (correspondence only); NEON and WASM kernels cannot be executed here",
-     "float formats: tolerance of a re-associated f64 sum is applied by the oracle, the bound is not proved in Lean"],
+     "float formats: reassoc_err bounds the difference of two summation orders by (gamma(d)+gamma(d'))*sum|x k| under the standard rounding "
+     "model (premise); the oracle applies a tolerance of a few f32 ulps",
+     "16-bit SIMD alpha division: faithfulness is proved under the standard model of binary32 rounding (two roundings, relative error 2^-24: "
+     "premise); the exact soft-float lane model used by the correspondence is tied to the hardware by the run, not by theorem"],
     "Lean 4 theorems over integer dot products and the translated clip functions + exhaustive-residue differential correspondence across back-ends")
 
 CONFIG['C03'] = _resize_cfg(
@@ -402,14 +420,15 @@ CONFIG['C03'] = _resize_cfg(
     "optimised profile, source and destination placed flush against inaccessible guard pages (mmap / mprotect): sizes 0 and 1, crop boxes "
     "with NaN, +-inf, negative, -0.0, denormal, sub-ulp, edge-flush and oversized fields, fit-cropping with extreme centering, every "
     "algorithm incl. SuperSampling multiplicities 0, 1, 2, 7, 100, 255, custom kernels (moderate and large negative lobes, ring kernel that "
-    "vanishes around 0, supports 0.01 .. 60, scale factors 1e-300 .. 1e300 and negative), all 13 pixel types, back-ends, typed / dynamic "
+    "vanishes around 0, supports 0.01 .. 60 and valid but huge ones 4e9, 1e19, 1e300, f64::MAX, scale factors 1e-300 .. 1e300 and negative), all 13 pixel types, back-ends, typed / dynamic "
     "entry, exact / oversized / strided / nested containers, fresh and reused resizers. Oracle: the outcome is Ok or a documented error, "
     "never a panic (inside the documented head-room sum|w| < 4; outside it only crashes count) and never a crash; inside the head-room the "
     "destination bytes are also compared with the model. The case being executed is recorded so that a crash is attributed to its input.",
     "Machine-checked proof (Lean 4), float-oblivious and for all inputs: every coefficient window lies inside the source and its bound "
     "arithmetic cannot underflow, for every zero-test (any kernel, NaN weights included); the temporary image of a two-pass resize "
     "contains every shifted window; the clip-table index is inside the 1280-entry table and computed without overflow for every "
-    "accumulator and precision (translated code); every reachable precision has a dispatch arm (translated arm list); together with the "
+    "accumulator and precision (translated code); for every monotone integer-exact rounding x_min <= x_max <= in_size and every window "
+    "fits the min(2*ceil(r)+1, in_size) slots reserved for it (xmin_le_xmax, span_le_window); every reachable precision has a dispatch arm (translated arm list); together with the "
     "overflow-freedom theorems of C04, C06, C08, C17 and the in-bounds theorems of C09, C11. Outcome classes are compared with the real "
     "code in two build profiles behind guard pages.",
     ["SIMD load footprints are covered by guard pages in the correspondence, not by theorem; the allocator and rayon internals are outside",
